@@ -80,6 +80,44 @@ CHECKS["C07"] = cfg(
                  "extra property names avoid reserved member names"],
 )
 
+CHECKS["C02"] = cfg(
+    "C02",
+    technique="runtime monitoring: decision-table oracle over harness-constructed scenarios (own keys, own JWT assembler); accept <=> all conditions; errors must identify falsified conditions",
+    level_text="Every scenario is built by the harness so that the truth of each of the 12 conditions (signature, kid/method-id lookup, scope, kid DID vs document, issuer vs method DID, nonce, issuance/expiry bounds at +-1 s, structure, subject-holder mode, status form x mode) is known by construction. validate() must accept exactly when all hold; with AllErrors the reported concerns must equal the falsified credential-side conditions, with FirstError be one of them; signature-side failures must be identified by a matching error family; on acceptance the returned credential, header and custom claims must be those signed. Includes the exhaustive 2^5 credential-side table and verify_signature over two trusted issuers.",
+    min={"quick": {"accepted": 800, "rejected:credential-side": 800, "rejected:signature-side": 800, "u_table_rows": 200, "distinct:condition_vectors": 150},
+         "thorough": {"accepted": 20000, "rejected:credential-side": 20000, "rejected:signature-side": 20000, "distinct:condition_vectors": 400}},
+    assumptions=["validation bounds are always explicit (no wall clock)",
+                 "signature-side error families are matched loosely (any family belonging to a falsified condition)"],
+)
+
+CHECKS["C19"] = cfg(
+    "C19", exhaustive=True,
+    technique="runtime monitoring: reference duplicate-free list model compared after every operation; exhaustive op sequences to bounded length, state-graph closure, random histories, constructor/serde lists",
+    level_text="Every OrderedSet/OneOrSet/OneOrMany operation is executed on the real collection and on a harness list model; result flag and full order are compared after each step, exhaustively for all op sequences up to a per-universe length, for every (reachable state x op) transition, and for long random histories; all short lists (with duplicates/empties) go through every constructor and serde path.",
+    min={"quick": {"oset_exhaustive_sequences": 30000000, "oset_closure_steps": 4000, "oset_rand_steps": 150000, "oset_tryfrom_rejected": 500,
+                   "json_roundtrips": 30000, "oneorset_checks": 10000, "oneorset_rejected_duplicates": 1000, "oneormany_checks": 5000, "nontrivial": 30000000},
+         "thorough": {"oset_exhaustive_sequences": 1000000000, "oset_closure_steps": 50000, "oset_rand_steps": 3000000, "nontrivial": 1000000000}},
+    thorough=[{"flavour": "checked", "shards": 16, "timeout": 3000},
+              {"flavour": "miri", "shards": 4, "timeout": 3000, "args": {"scale": 2}}],
+    assumptions=["iter_mut_unchecked/head_mut/tail_mut/clear are documented as invariant-breaking and not part of the histories",
+                 "replace(cur, upd) with cur absent and upd's key present may return true (replaced in place) or false (unchanged)"],
+)
+
+CHECKS["C15"] = cfg(
+    "C15",
+    technique="runtime monitoring: sequential model of both stores over random histories; racing std-thread rounds with per-digest linearizability (Wing-Gong) check over recorded call/return stamps; TSan and Miri flavours",
+    level_text="Random operation histories on JwkMemStore/KeyIdMemstore are compared step by step with a harness model (fresh ids, public-only JWK, RFC 7638 kid recomputed, signatures verifying under their own key and no other, deleted/never-issued ids dead, insert argument validation, second insert per digest refused). Racing rounds on 2-16 threads record client-boundary histories whose per-digest sub-histories must be linearizable (exactly one winner, every get returns it). Thorough adds ThreadSanitizer and Miri runs of the racing rounds.",
+    min={"quick": {"sign_ok": 1000, "cross_key_verifications": 5000, "generate_ok": 500, "insert_rejected": 200, "kid_insert_dup_rejected": 50,
+                   "race_single_winner": 1000, "race_overlapping_rounds": 50, "lin_checked": 2000, "lin_checked_with_overlap": 200, "nontrivial": 200},
+         "thorough": {"sign_ok": 50000, "race_single_winner": 50000, "lin_checked": 100000, "lin_checked_with_overlap": 10000}},
+    thorough=[{"flavour": "checked", "shards": 16, "timeout": 3000},
+              {"flavour": "tsan", "shards": 8, "timeout": 3000, "args": {"scale": 100}},
+              {"flavour": "miri", "shards": 8, "timeout": 3000, "args": {"scale": 5, "parts": 6}}],
+    assumptions=["the public_key argument of sign only needs to carry alg/curve",
+                 "Stronghold is exercised by the separate stronghold stage (thorough) when available; Miri cannot cross its FFI",
+                 "insert of a JWK whose d is malformed is counted, not judged"],
+)
+
 # Default entries for properties whose monitors are being built (not claimed in MANIFEST.json until enabled).
 for _pid in ["C%02d" % i for i in range(1, 21)]:
     if _pid not in CHECKS:
